@@ -589,7 +589,10 @@ class Gen:
         pn = sorted(set(s_pnames(o)) - ({o['reps'][2]} if isinstance(o['reps'], tuple) else set()))
         if pn and (self.sim or rng.random() < 0.5):
             for n in pn:
-                if self.sim or rng.random() < 0.7:
+                if n == 'n':       # the symbol used for repetitions: integers only
+                    if rng.random() < 0.6:
+                        o['pm'].append((n, ('val', 8 * rng.choice([0, 1, 2, 2]))))
+                elif self.sim or rng.random() < 0.7:
                     o['pm'].append((n, ('val', rng.choice([1, 2, 3, 4, 6, -2])) if (self.sim or rng.random() < 0.6)
                                     else ('sym', rng.choice(['t', 's', 'u', 'w']))))
         if rng.random() < 0.4:
@@ -615,7 +618,7 @@ def observe(cirq, V, op):
     return d
 
 
-def struct_stream(ctx, cirq, V, n):
+def struct_stream(ctx, cirq, V, n, unroll_n=60):
     rng = ctx.rng
     gen = Gen(rng)
     rows = []
@@ -644,8 +647,8 @@ def struct_stream(ctx, cirq, V, n):
         if len({m2.get(x, x) for x in names}) != len(names):
             m2 = {}
         pn = obs['pnames'][1] if obs['pnames'][0] == 'ok' else []
-        pm2 = {x: (('val', rng.choice([1, 2, 3, 5])) if rng.random() < 0.6 else ('sym', rng.choice(['t', 'w', 'v'])))
-               for x in pn if rng.random() < 0.7}
+        pm2 = {x: (('val', 8 * rng.choice([0, 1, 2])) if x == 'n' else ('val', rng.choice([1, 2, 3, 5])) if rng.random() < 0.6
+                   else ('sym', rng.choice(['t', 'w', 'v']))) for x in pn if rng.random() < 0.7}
         path = list(rpath(rng, 2))
         bind = [rkey(rng, 2) for _ in range(rng.randint(0, 3))]
         for x in names[:2]:
@@ -668,7 +671,8 @@ def struct_stream(ctx, cirq, V, n):
                               deep_moments=(len(obs['deep'][1]) if obs['deep'][0] == 'ok' else obs['deep'][1])))
         for feat in struct_features(D):
             ctx.streams['feature:' + feat] += 1
-        spec_struct(ctx, cirq, V, op, D, obs)
+        spec_struct(ctx, cirq, V, op, D, obs, do_unroll=(len(rows) <= unroll_n))
+        spec_commute(ctx, cirq, V, op, D, g, m2, pm2, path, bind)
     # ---- the model, evaluated on the same records
     pairs = lambda l, fa, fb: gL(l, lambda p: f'({fa(p[0])}, {fb(p[1])})')
     lines = []
@@ -697,6 +701,9 @@ def struct_stream(ctx, cirq, V, n):
         for idx in idxs:
             r = rows[idx]
             got = r['obs'].get(name, r['tr'].get(name))
+            if sym_collision(r['rec'], [dict(r['m2'])] if name == 'kmap' else []) and confirm_f13(ctx, cirq, V):
+                ctx.streams['explained:F13'] += 1
+                continue
             ctx.mark_broken(f'correspondence:struct:{name}', f'case {idx}: {r["rec"]} -> implementation {got}')
             ctx.violation(f'correspondence:struct:{name}',
                           f'model and implementation disagree on `{name}` of {V.sub(r["rec"])!r}'[:1500] + f' implementation: {got}'[:600],
@@ -775,8 +782,290 @@ def struct_features(D):
     return f
 
 
-def spec_struct(ctx, cirq, V, op, D, obs):
-    pass
+def trace_sig(cirq, ops):
+    """Per-resource subsequences (qubits, measurement/control keys): equal signatures = trace-equivalent sequences."""
+    sig = {}
+    for o in ops:
+        r = repr(o)
+        res = [('q', repr(q)) for q in o.qubits]
+        res += [('k', str(k)) for k in cirq.measurement_key_objs(o) | cirq.control_keys(o)]
+        for x in res:
+            sig.setdefault(x, []).append(r)
+    return sig
+
+
+def has_zero_reps(cirq, op):
+    """Does unrolling meet a CircuitOperation whose (resolved) repetition count is 0?"""
+    if not isinstance(op, cirq.CircuitOperation):
+        return False
+    if isinstance(op.repetitions, (int, np.integer)) and op.repetitions == 0:
+        return True
+    try:
+        inner = list(op._mapped_any_loop.all_operations())
+    except Exception:
+        return False
+    return any(has_zero_reps(cirq, x) for x in inner)
+
+
+def strip_payload(c):
+    """A decoded circuit with the non-key fields of key conditions erased (what F2 loses)."""
+    def so(o):
+        if o['t'] == 'leaf':
+            return dict(o, cs=[(('key', x[1], -1) if x[0] in ('key', 'mask') else x) for x in o['cs']])
+        return dict(o, c=strip_payload(o['c']))
+    return [[so(o) for o in m] for m in c]
+
+
+F2_SIGS = {'key': 'F2:KeyCondition.replace_key:index-dropped', 'mask': 'F2:BitMaskKeyCondition.replace_key:fields-dropped'}
+
+
+def confirm_f2(ctx, cirq, V):
+    hit = False
+    for c in (('key', ((), 'a'), 0), ('mask', ((), 'a'), -1, 2, True, 2)):
+        got = V.dcond(cirq.with_measurement_key_mapping(V.cond(c), {'a': 'b'}))
+        want = (c[0], ((), 'b')) + c[2:]
+        if norm_cond(got) != norm_cond(want):
+            sig, what = cond_defect_signature(c, got, want)
+            ctx.violation(sig, f'{what}: {c} under {{a: b}} became {got}', dict(kind='cond', cond=c, path=(), key_map=[('a', 'b')],
+                                                                              bindable=[], which='key_map'))
+            hit = True
+    return hit
+
+
+def sym_collision(D, extra_maps=()):
+    """Is there a sympy condition with >= 2 keys under a key map sending one of its keys onto another of its keys?
+    (the situation in which the sequential substitution of the implementation differs from the specification)"""
+    def walk(o, maps):
+        if o['t'] == 'leaf':
+            for c in o['cs']:
+                if c[0] == 'sym' and len(c[2]) >= 2:
+                    names = [k[1] for k in c[2]]
+                    for m in maps:      # innermost map first
+                        new = [m.get(x, x) for x in names]
+                        if any(new[i] != names[i] and new[i] in names for i in range(len(names))):
+                            return True
+                        names = new
+            return False
+        maps2 = ([dict(o['km'])] if o['km'] else []) + maps
+        return any(walk(x, maps2) for m in o['c'] for x in m)
+    return walk(D, [dict(m) for m in extra_maps if m])
+
+
+def confirm_f13(ctx, cirq, V):
+    """The minimal failing input of F13, evaluated on the real code."""
+    import sympy
+    a, b = sympy.symbols('a b')
+    c = cirq.SympyCondition(sympy.And(sympy.Eq(a, 1), sympy.Eq(b, 0)))
+    got = cirq.with_measurement_key_mapping(c, {'a': 'b', 'b': 'a'})
+    want = cirq.SympyCondition(sympy.And(sympy.Eq(b, 1), sympy.Eq(a, 0)))
+    if got != want:
+        sig, what = cond_defect_signature(('sym',), None, None)
+        ctx.violation(sig, f'{what}: {c} under {{a: b, b: a}} became {got}, expected {want}',
+                      dict(kind='cond', cond=('sym', 2, [((), 'a'), ((), 'b')]), path=(), key_map=[('a', 'b'), ('b', 'a')],
+                           bindable=[], which='key_map'))
+        return True
+    return False
+
+
+# ----------------------------------------------------------------------------------------------------------------
+# minimisation of failing records
+def _variants(o):
+    """Smaller / simpler versions of a record (one change each)."""
+    import copy
+    if o['t'] == 'leaf':
+        if o['cs']:
+            for i in range(len(o['cs'])):
+                x = copy.deepcopy(o)
+                del x['cs'][i]
+                yield x
+            for i, c in enumerate(o['cs']):
+                if c[0] != 'key' or c[2] != -1:
+                    x = copy.deepcopy(o)
+                    x['cs'][i] = ('key', c[1] if c[0] != 'sym' else c[2][0], -1)
+                    yield x
+        if o['sgn']:
+            x = copy.deepcopy(o)
+            x['sgn'] = False
+            yield x
+        return
+    # a sub: drop moments, drop operations, reset fields, then recurse
+    for i in range(len(o['c'])):
+        if len(o['c']) > 1:
+            x = copy.deepcopy(o)
+            del x['c'][i]
+            yield x
+    for i, m in enumerate(o['c']):
+        for j in range(len(m)):
+            if len(m) > 1:
+                x = copy.deepcopy(o)
+                del x['c'][i][j]
+                yield x
+    for k, v in (('qm', []), ('km', []), ('pm', []), ('pp', []), ('until', None)):
+        if o[k]:
+            x = copy.deepcopy(o)
+            x[k] = v
+            yield x
+    if o['ids'] is not None or o['use']:
+        x = copy.deepcopy(o)
+        x['ids'], x['use'] = None, False
+        yield x
+    if o['reps'] != 1:
+        for r in ([1, 2] if (isinstance(o['reps'], tuple) or abs(o['reps']) > 2) else [1]):
+            x = copy.deepcopy(o)
+            x['reps'] = r
+            if x['ids'] is not None:
+                x['ids'] = x['ids'][:r] if len(x['ids']) >= r else None
+            yield x
+    for i, m in enumerate(o['c']):
+        for j, y in enumerate(m):
+            if y['t'] == 'sub':      # replace a nested operation by its body's first leaf, or hoist
+                for z in [u for mm in y['c'] for u in mm][:2]:
+                    x = copy.deepcopy(o)
+                    x['c'][i][j] = copy.deepcopy(z)
+                    yield x
+            for z in _variants(y):
+                x = copy.deepcopy(o)
+                x['c'][i][j] = z
+                yield x
+
+
+def shrink(rec, fails, budget=400):
+    """Greedy minimisation: keep applying the first simplification under which `fails` still holds."""
+    cur = rec
+    n = 0
+    progress = True
+    while progress and n < budget:
+        progress = False
+        for cand in _variants(cur):
+            n += 1
+            if n >= budget:
+                break
+            try:
+                if fails(cand):
+                    cur = cand
+                    progress = True
+                    break
+            except Exception:
+                pass
+    return cur
+
+
+F7_SIG = 'F7:zero-repetitions:keys-of-empty-unrolling'
+F7_WHAT = ('F7 a CircuitOperation with repetitions=0 still reports the measurement keys / control keys / is_measurement of '
+           'its body, while its unrolled form (mapped_circuit, decompose, simulation) is empty')
+
+
+def unroll_defect(cirq, V, name, D):
+    """'' if the transformer agrees with mapped_circuit(deep=True) up to trace equivalence, else what goes wrong."""
+    op = V.sub(D)
+    flat = op.mapped_circuit(deep=True)
+    r = attempt(lambda: getattr(cirq, name)(cirq.Circuit(op), deep=True, tags_to_check=None))
+    if r[0] != 'ok':
+        return 'raises-' + r[1]
+    a, b = trace_sig(cirq, r[1].all_operations()), trace_sig(cirq, flat.all_operations())
+    if a == b:
+        return ''
+    if any(a.get(k) != b.get(k) for k in set(a) | set(b) if k[0] == 'q'):
+        return 'reorders-operations-on-a-qubit'
+    return 'reorders-operations-on-a-key'
+
+
+def spec_struct(ctx, cirq, V, op, D, obs, do_unroll=True):
+    """Spec-level oracles on the real code: the wrapped operation vs its unrolled circuit."""
+    if obs['deep'][0] != 'ok':
+        # only nondeterministic loop counts may refuse to unroll
+        def nondet(o):
+            return o['t'] == 'sub' and (isinstance(o['reps'], tuple) or o['until'] is not None
+                                        or any(nondet(x) for m in o['c'] for x in m))
+        if not (obs['deep'][1] == 'ValueError' and nondet(D)):
+            ctx.violation('unroll:refused', f'mapped_circuit(deep=True) raised {obs["deep"][1:]} for a deterministic loop: {op!r}'[:1500],
+                          dict(kind='struct', rec=D, which='deep'))
+        return
+    flat = op.mapped_circuit(deep=True)
+    rep = dict(kind='struct', rec=D, which='spec')
+    zero = has_zero_reps(cirq, op)
+    # S1: reported keys
+    for name, f in (('measurement_key_objs', cirq.measurement_key_objs), ('control_keys', cirq.control_keys),
+                    ('is_measurement', cirq.is_measurement)):
+        w, u = attempt(lambda: f(op)), attempt(lambda: f(flat))
+        if w != u:
+            if zero:
+                ctx.violation(F7_SIG, F7_WHAT + f' ({name}: wrapped {w[1]}, unrolled {u[1]})', rep)
+            else:
+                ctx.violation(f'wrapped-vs-unrolled:{name}', f'{name} of the operation is {w}, of its unrolled circuit {u}: {op!r}'[:1800], rep)
+    if not set(flat.all_qubits()) <= set(op.qubits) or (not zero and set(flat.all_qubits()) != set(op.qubits)):
+        ctx.violation('wrapped-vs-unrolled:qubits', f'qubits {op.qubits} vs unrolled {sorted(flat.all_qubits())}: {op!r}'[:1800], rep)
+    # S2: decomposition
+    sh = op.mapped_circuit(deep=False)
+    if list(cirq.decompose_once(op)) != list(sh.all_operations()):
+        ctx.violation('decompose_once-vs-mapped_circuit', f'decompose_once differs from mapped_circuit: {op!r}'[:1800], rep)
+    full = cirq.decompose(op, keep=lambda o: not isinstance(o.untagged, cirq.CircuitOperation))
+    if trace_sig(cirq, full) != trace_sig(cirq, flat.all_operations()):
+        ctx.violation('decompose-vs-unrolled', f'cirq.decompose is not trace-equivalent to mapped_circuit(deep=True): {op!r}'[:1800], rep)
+    # S3: the transformer primitives
+    if do_unroll:
+        for name in ('unroll_circuit_op', 'unroll_circuit_op_greedy_earliest', 'unroll_circuit_op_greedy_frontier'):
+            kind = unroll_defect(cirq, V, name, D)
+            if kind:
+                small = shrink(D, lambda x: unroll_defect(cirq, V, name, x) == kind, budget=150)
+                ctx.violation(f'{name}:{kind}', f'{name}(deep=True) {kind} relative to mapped_circuit(deep=True); minimised input: '
+                              f'{V.sub(small)!r}'[:1800], dict(kind='unroll', rec=small, fn=name, defect=kind))
+    ctx.streams['spec:wrapped-vs-unrolled'] += 1
+
+
+def spec_commute(ctx, cirq, V, op, D, g, m2, pm2, path, bind):
+    """Further remapping / resolution / inversion commutes with unrolling (on the real code)."""
+    flat = attempt(lambda: op.mapped_circuit(deep=True))
+    if flat[0] != 'ok':
+        return
+    flat = flat[1]
+    rep = dict(kind='struct', rec=D, which='commute', g=sorted(g.items()), m2=sorted(m2.items()), pm2=sorted(pm2.items()),
+               path=path, bind=bind)
+    gq = lambda q: V.q(g.get(q.x, q.x))
+    res = {V.sympy.Symbol(k): V.pval(v) for k, v in pm2.items()}
+    B = frozenset(V.key(b) for b in bind)
+    zero = has_zero_reps(cirq, op)
+    closed = not cirq.control_keys(flat)      # with_key_path_prefix on a flat circuit also prefixes unbound control keys
+    cases = [('qubit-map', lambda: op.transform_qubits(gq).mapped_circuit(deep=True), lambda: flat.transform_qubits(gq), True),
+             ('key-map', lambda: cirq.with_measurement_key_mapping(op, m2).mapped_circuit(deep=True),
+              lambda: cirq.with_measurement_key_mapping(flat, m2), True),
+             ('resolve', lambda: cirq.resolve_parameters(op, res, recursive=False).mapped_circuit(deep=True),
+              lambda: cirq.resolve_parameters(flat, res, recursive=False), True),
+             ('key-path-prefix', lambda: cirq.with_key_path_prefix(op, tuple(path)).mapped_circuit(deep=True),
+              lambda: cirq.with_key_path_prefix(flat, tuple(path)), True),
+             ('rescope', lambda: cirq.with_rescoped_keys(op, tuple(path), B).mapped_circuit(deep=True),
+              lambda: cirq.with_rescoped_keys(flat, tuple(path), B), True),
+             ('inverse', lambda: (op ** -1).mapped_circuit(deep=True), lambda: cirq.inverse(flat), False)]
+    for name, lhs, rhs, exact in cases:
+        if name == 'key-path-prefix' and not closed:
+            continue
+        a, b = attempt(lhs), attempt(rhs)
+        if a[0] != 'ok' and b[0] != 'ok':
+            continue
+        if name == 'resolve' and a[0] != 'ok' and any(isinstance(x['reps'], tuple) for x in subs_of(D)):
+            continue    # symbolic repetitions stay symbolic: no unrolled form to compare with
+        same = a[0] == b[0] == 'ok' and ((a[1] == b[1]) if exact else
+                                         trace_sig(cirq, a[1].all_operations()) == trace_sig(cirq, b[1].all_operations()))
+        if not same:
+            if name == 'key-map' and sym_collision(D, [m2]) and confirm_f13(ctx, cirq, V):
+                continue
+            if a[0] == b[0] == 'ok' and strip_payload(V.dcirc(a[1])) == strip_payload(V.dcirc(b[1])) and confirm_f2(ctx, cirq, V):
+                continue        # the two sides differ only in the fields replace_key drops
+            if zero and name in ('rescope', 'key-path-prefix'):
+                ctx.violation(F7_SIG, F7_WHAT + f' ({name}: a control key binds to a measurement of a zero-repetition body)', rep)
+                continue
+            ctx.violation(f'commute:{name}', f'{name} then unroll differs from unroll then {name} '
+                          f'({a[1] if a[0] != "ok" else ""} / {b[1] if b[0] != "ok" else ""}) for {op!r}'[:1800] +
+                          f' with g={g} m2={m2} pm2={pm2} path={path} bind={bind}', rep)
+    ctx.streams['spec:commute'] += 1
+
+
+def subs_of(D):
+    if D['t'] == 'leaf':
+        return []
+    return [D] + [y for m in D['c'] for x in m for y in subs_of(x)]
+
+
 
 
 # ----------------------------------------------------------------------------------------------------------------
